@@ -239,6 +239,65 @@ def hexVal : Str → List Nat
   | a :: b :: r => (16 * hexNib a + hexNib b) :: hexVal r
   | _ => []
 
+/-! ### float / double (§3.3.4, §3.3.5): `(\+|-)?([0-9]+(\.[0-9]*)?|\.[0-9]+)([Ee](\+|-)?[0-9]+)?|(\+|-)?INF|NaN` -/
+
+def notExpChar (c : Char) : Bool := c != 'e' && c != 'E'
+
+/-- the exponent part: absent, or `[Ee](\+|-)?[0-9]+` -/
+def expLex : Str → Bool
+  | [] => true
+  | _ :: '+' :: r => nonEmptyDigits r
+  | _ :: '-' :: r => nonEmptyDigits r
+  | _ :: r => nonEmptyDigits r
+
+/-- an unsigned numeral: mantissa up to the first `e`/`E`, then the exponent part -/
+def numeralLex (r : Str) : Bool := decBodyLex (r.takeWhile notExpChar) && expLex (r.dropWhile notExpChar)
+
+def doubleLex (s : Str) : Bool :=
+  s == ['N', 'a', 'N'] ||
+  (match s with
+   | '+' :: r => r == ['I', 'N', 'F'] || numeralLex r
+   | '-' :: r => r == ['I', 'N', 'F'] || numeralLex r
+   | r => r == ['I', 'N', 'F'] || numeralLex r)
+
+/-! ### base64Binary (§3.3.16): `((B64 B64 B64 B64)* (B64 B64 B64 B64char | B64 B64 B16 '=' | B64 B04 '=' #x20? '='))?`
+    with `B64 ::= B64char #x20?` — i.e. the canonical language without spaces, and a single space allowed after
+    every character but the last -/
+
+def b64Alphabet : Str := "ABCDEFGHIJKLMNOPQRSTUVWXYZabcdefghijklmnopqrstuvwxyz0123456789+/".toList
+
+def isB64 (c : Char) : Bool := b64Alphabet.contains c
+def isB16 (c : Char) : Bool := "AEIMQUYcgkosw048".toList.contains c
+def isB04 (c : Char) : Bool := "AQgw".toList.contains c
+
+/-- the six bits a character stands for: its position in the alphabet (RFC 4648 table 1) -/
+def b64Six (c : Char) : Nat := b64Alphabet.idxOf c
+
+/-- the language without spaces -/
+def b64Body : Str → Bool
+  | [] => true
+  | a :: b :: c :: d :: r =>
+    if d == '=' then r.isEmpty && isB64 a && (if c == '=' then isB04 b else isB64 b && isB16 c)
+    else isB64 a && isB64 b && isB64 c && isB64 d && b64Body r
+  | _ => false
+
+def noSpaces (s : Str) : Str := s.filter (fun c => c != ' ')
+
+def b64Lex (s : Str) : Bool :=
+  s.head? != some ' ' && s.getLast? != some ' ' && noDoubleSpace s && b64Body (noSpaces s)
+
+/-- four characters = 24 bits = three octets; with `=` padding one or two octets -/
+def b64BodyVal : Str → List Nat
+  | a :: b :: c :: d :: r =>
+    if d == '=' then
+      (if c == '=' then [b64Six a * 4 + b64Six b / 16]
+       else [b64Six a * 4 + b64Six b / 16, b64Six b % 16 * 16 + b64Six c / 4])
+    else (b64Six a * 4 + b64Six b / 16) :: (b64Six b % 16 * 16 + b64Six c / 4) :: (b64Six c % 4 * 64 + b64Six d) ::
+      b64BodyVal r
+  | _ => []
+
+def b64ValOf (s : Str) : List Nat := b64BodyVal (noSpaces s)
+
 /-! ### values of the date/time and duration families at field level
 
   Only meaningful on forms in the lexical space.  Fractions of a second are compared as digit
@@ -331,6 +390,7 @@ def sameValue (d : Dt) (s t : Str) : Prop :=
   | .duration | .dayTimeDuration | .yearMonthDuration =>
     (durVal s).1 = (durVal t).1 ∧ ratEq ((durVal s).2.1, (durVal s).2.2) ((durVal t).2.1, (durVal t).2.2)
   | .hexBinary => hexVal s = hexVal t
+  | .base64Binary => b64ValOf s = b64ValOf t
   | _ => intVal s = intVal t
 
 /-! ### the lexical space of each modelled datatype -/
@@ -350,6 +410,7 @@ def validLex (d : Dt) (s : Str) : Bool :=
   | .dayTimeDuration => durLex false true s
   | .yearMonthDuration => durLex true false s
   | .hexBinary => hexLex s
+  | .base64Binary => b64Lex s
   | d => intLex s && inBounds (xsdBounds d) (intVal s)
 
 /-- plain literal (no datatype): every string -/
